@@ -138,7 +138,8 @@ int main(int argc, char ** argv) {
                     f.fileStatistics.applicationMinor = (uint8_t) rng();
                     f.fileStatistics.applicationBuild = (uint32_t) rng();
                     f.fileStatistics.apiNumber = (uint32_t) rng();
-                    f.fileStatistics.compressionLevel = (uint8_t) level;
+                    // a caller field like the others: deliberately NOT the level the File compresses with
+                    f.fileStatistics.compressionLevel = (uint8_t) ((level + 1 + f.fileStatistics.applicationId % 9) % 10);
                     f.fileStatistics.measurementStartTime.year = (uint16_t) rng();
                     want = f.fileStatistics;
                     f.open(fn.c_str(), std::ios_base::out);
